@@ -486,17 +486,7 @@ def pd7(model):
         fn = model.funcs[q]
         for n in iter_scope(fn.node):
             if isinstance(n, ast.Attribute) and n.attr == 'pos' and isinstance(n.ctx, ast.Load):
-                root = n.value
-                while isinstance(root, (ast.Subscript, ast.Attribute)):
-                    root = root.value
-                names = {root.id} if isinstance(root, ast.Name) else set()
-                if isinstance(root, ast.Name):
-                    for v in T.resolve_local(model, root):
-                        rr = v
-                        while isinstance(rr, (ast.Subscript, ast.Attribute)):
-                            rr = rr.value
-                        if isinstance(rr, ast.Name):
-                            names.add(rr.id)
+                names = _roots(model, n.value, fn)
                 if p in names:
                     r.fail(n, 'a position is taken from %s, a token of the output already emitted '
                            'by the caller: generated text maps to the previous sentence'
@@ -521,6 +511,40 @@ def pd7(model):
         else:
             r.ok(call, 'position is an expression of the construct', sample=False)
     return r
+
+
+def _roots(model, e, fn, depth=5):
+    """names of the parameters / locals a token expression is taken from: through subscripts,
+    attributes, next / reversed / list / iter / sorted / enumerate, comprehensions and loops"""
+    from ..rdefs import reachdefs
+    if depth <= 0 or e is None:
+        return set()
+    if isinstance(e, (ast.Subscript, ast.Attribute)):
+        return _roots(model, e.value, fn, depth)
+    if isinstance(e, ast.Call):
+        n = T.call_name(e)
+        if n in ('next', 'reversed', 'list', 'iter', 'sorted', 'enumerate', 'tuple') and e.args:
+            return _roots(model, e.args[0], fn, depth)
+        return set()
+    if isinstance(e, (ast.GeneratorExp, ast.ListComp)):
+        out = set()
+        for g in e.generators:
+            out |= _roots(model, g.iter, fn, depth)
+        return out
+    if isinstance(e, ast.IfExp):
+        return _roots(model, e.body, fn, depth) | _roots(model, e.orelse, fn, depth)
+    if isinstance(e, ast.Name):
+        out = {e.id}
+        rd = reachdefs(fn)
+        for kind, name, node in rd.defs_of(e):
+            if kind == 'assign':
+                out |= _roots(model, node, fn, depth - 1)
+            elif kind in ('for', 'comp'):
+                out |= _roots(model, node, fn, depth - 1)
+            elif kind in ('unpack', 'forunpack'):
+                out |= _roots(model, node[0], fn, depth - 1)
+        return out
+    return set()
 
 
 def _is_output_acc(fn, name):
